@@ -237,6 +237,44 @@ theorem unop_eq_multiNew {β : Type} (op : Arg → β) (f : List Arg → β) (hf
           rw [← isSeq_eq_isList_of_tupleFree (tupleFree_mem htf hx)]; exact hany' x hx
         rw [multiNew_single_nonlist f x hxl, hf]
 
+/-- `list_narop` traverses its first operand only (the other arguments are passed through) -/
+theorem narop_eq_multiNew {β : Type} (op : Arg → List Arg → β) (args : List Arg) (f : List Arg → β)
+    (hf : ∀ x, f [x] = op x args) (t : Kind) (a : Arg) (htf : TupleFree a) (hne : DeepNonEmpty a) :
+    (listNarop op t a args).toRes = multiNew f [a] := by
+  generalize hs : a.size = n
+  induction n using Nat.strongRecOn generalizing a t with
+  | _ n ih =>
+    rw [listNarop]
+    cases a with
+    | num v => rw [multiNew_single_nonlist f _ rfl]; simp [Arg.isSeq, OpRes.toRes, hf]
+    | obj v => rw [multiNew_single_nonlist f _ rfl]; simp [Arg.isSeq, OpRes.toRes, hf]
+    | tup xs => simp [TupleFree] at htf
+    | lst c xs =>
+      have hxs : xs ≠ [] := by simp only [DeepNonEmpty] at hne; exact hne.1
+      rw [multiNew_single_list f c xs hxs]
+      simp only [Arg.isSeq, if_true, Arg.items]
+      have hmem : ∀ x ∈ xs, ∀ t', (listNarop op t' x args).toRes = multiNew f [x] := by
+        intro x hx t'
+        exact ih x.size (by rw [← hs]; exact size_items_lt (a := .lst c xs) (by simpa [Arg.items] using hx))
+          t' x (tupleFree_mem htf hx) (deepNonEmpty_mem hne hx) rfl
+      by_cases hany : anySeq xs = true
+      · simp only [hany, if_true]
+        simp only [OpRes.toRes, toResL_map]
+        congr 1
+        rw [← List.attach_map_val (l := xs) (f := fun x => multiNew f [x])]
+        apply List.map_congr_left
+        intro x _
+        exact hmem x.1 x.2 _
+      · simp only [hany, Bool.false_eq_true, if_false]
+        have hany' := anySeq_false_iff.mp (by simpa using hany)
+        simp only [OpRes.toRes, toResL_map]
+        congr 1
+        apply List.map_congr_left
+        intro x hx
+        have hxl : x.isList = false := by
+          rw [← isSeq_eq_isList_of_tupleFree (tupleFree_mem htf hx)]; exact hany' x hx
+        rw [multiNew_single_nonlist f x hxl, hf]
+
 theorem listBinop_lst_lst {β : Type} (op : Arg → Arg → β) (t : Kind) (c d : Bool) (xs ys : List Arg) :
     listBinop op t (.lst c xs) (.lst d ys) =
       if (anySeq (extendPair xs ys).1 || anySeq (extendPair xs ys).2) = true then
